@@ -86,6 +86,8 @@ def run(tier, seed, replay=None):
         for i, c in enumerate(cases):
             c["k"] = i + 1
             c["frag"] = (i % 2 == 1) and not replay       # every other behaviour on cells with a history (unused slots before live nodes / faces)
+            if i % 3 == 2 and "mscale_exp" not in c:
+                c["mscale_exp"] = -60 if i % 2 else 40    # node masses of 2e-18 / 2e12: the law is homogeneous in (mass, momentum, force, damping)
         vlib.write_ndjson(cp, cases)
         rc, out = vlib.run([os.path.join(bdir, "integ_driver"), cp, op], timeout=3000)
         obs = vlib.read_ndjson(op) if os.path.exists(op) else []
